@@ -2,7 +2,6 @@ package bal
 
 import (
 	"fmt"
-	"os"
 	"path/filepath"
 	"sort"
 	"strconv"
@@ -56,5 +55,3 @@ func debugCase(spec string) int {
 	}
 	return 0
 }
-
-func init() { _ = os.Getenv }
